@@ -108,6 +108,21 @@ func (g *uciGen) eol() string {
 
 // send queues a line, possibly fragmented with pauses in between.
 func (g *uciGen) send(line string) {
+	if line != "" && g.rng.IntN(12) == 0 {
+		// arbitrary white space between and around tokens is allowed
+		switch g.rng.IntN(5) {
+		case 0:
+			line += "\t"
+		case 1:
+			line += " "
+		case 2:
+			line = "\t" + line
+		case 3:
+			line = strings.Replace(line, " ", "\t", 1) + pick(g.rng, []string{"", "\t"})
+		case 4:
+			line = strings.Replace(line, " ", " \t ", 1)
+		}
+	}
 	data := line + g.eol()
 	if g.rng.Float64() < g.cfg.PFrag && len(data) > 2 {
 		n := 1 + g.rng.IntN(3)
@@ -348,7 +363,7 @@ func (g *uciGen) idle(w *uciWorld) {
 			g.send("debug " + pick(r, []string{"on", "off"}))
 		}
 		if g.cfg.Hash {
-			g.send(fmt.Sprintf("setoption name Hash value %d", pick(r, []int{1, 2, 4, 16})))
+			g.send(fmt.Sprintf("setoption name Hash value %d", pick(r, []int{1, 2, 4, 16, 64, 128})))
 		}
 		if g.cfg.Ponder {
 			g.send("setoption name Ponder value " + pick(r, []string{"true", "true", "True", "false"}))
@@ -397,6 +412,10 @@ func (g *uciGen) issueGo() {
 	if g.newGameNext {
 		g.send("ucinewgame")
 		g.newGameNext = false
+		if g.cfg.Hash && r.IntN(3) == 0 {
+			// the table is resized right behind the clearing
+			g.send(fmt.Sprintf("setoption name Hash value %d", pick(r, []int{1, 2, 16, 64})))
+		}
 	}
 	g.send(pos)
 	line, selfEnds, ponder := g.goLine()
